@@ -6,6 +6,7 @@ import ast
 from sa.cfg import CFG
 from sa.model import AnalysisError, FuncInfo, Model, walk_no_nested
 from sa.report import Report
+from sa.uds_rules import parse_pdu_request_consistency
 
 TITLE = "One client request ends with the outcome its reply/fault sequence implies"
 CLIENT = "gallia.services.uds.core.client"
@@ -39,7 +40,8 @@ def run(m: Model, r: Report, tier: str) -> None:
     r.rule("R5", "nothing fabricated or dropped: returns yield parse_pdu(raw_resp, request); every raw_resp comes from a transport "
                  "read and is followed by the empty-read -> BrokenPipeError guard inside the try that converts connection errors", floor=5)
     r.rule("R6", "the terminal error is a MissingResponse; on connection errors its __cause__ is set and a reconnect happens iff retries remain", floor=5)
-    r.rule("R7", "per-request overrides resolve as `config.x if config.x is not None else self.x`", floor=2)
+    r.rule("R7", "per-request overrides resolve as `config.x if config.x is not None else self.x`, and an unset override is None", floor=4)
+    r.rule("R8", "a reply is accepted or refused against the re-parsed request (raw requests of known services are matched like typed ones)", floor=2)
 
     fn = m.require_function(f"{CLIENT}.UDSClient.request_unsafe")
     par = parents(fn.node)
@@ -167,6 +169,13 @@ def run(m: Model, r: Report, tier: str) -> None:
         r.check(okv, "R7", f"{fn.qualname}#{attr}-override",
                 f"{attr} is resolved by `{ast.unparse(a[0].value) if a else None}`; an explicit per-request 0 must override the client "
                 "default (`or` / truthiness treats 0 as unset)", loc=fn.loc)
+        # the field left unset by the caller must read as "not set": any other default shadows the client-level value
+        rc_cls = m.require_class(f"{CLIENT}.UDSRequestConfig")
+        dflt = rc_cls.class_attrs.get(attr)
+        r.check(attr in rc_cls.class_annots and dflt is not None and isinstance(dflt, ast.Constant) and dflt.value is None, "R7",
+                f"{rc_cls.qualname}.{attr}#unset-default",
+                f"UDSRequestConfig.{attr} defaults to `{ast.unparse(dflt) if dflt is not None else '<no default>'}`: with the `is not None` override test "
+                f"every request that does not set {attr} then ignores the client's {attr}", loc=rc_cls.loc)
     init = m.require_function(f"{CLIENT}.UDSClient.__init__")
     ann = init.param_annotations().get("timeout")
     r.check(ann is not None and ast.unparse(ann) == "float", "R3", f"{init.qualname}#timeout-type",
@@ -307,6 +316,30 @@ def run(m: Model, r: Report, tier: str) -> None:
     to = [n for n in walk_no_nested(fn.node) if isinstance(n, ast.ExceptHandler) and n.type is not None and ast.unparse(n.type) == "TimeoutError"
           and WHILE not in ancestors(n, par)]
     r.check(len(to) == 1 and isinstance(to[0].body[-1], ast.Continue), "R6", f"{fn.qualname}#timeout-handler", "TimeoutError handler of the attempt changed", loc=fn.loc)
+
+    # the reconnect between two attempts must not fail because the *old* connection is dead
+    ru = m.require_function(f"{CLIENT}.UDSClient.reconnect_unsafe")
+    r.check(any(isinstance(n, ast.Call) and ast.unparse(n.func) == "self.transport.reconnect" for n in ast.walk(ru.node)), "R6",
+            f"{ru.qualname}#delegates", "reconnect_unsafe must use the transport's reconnect()", loc=ru.loc)
+    n_rc = 0
+    for rcq in [f"{BASE}.BaseTransport.reconnect"] + [c.methods["reconnect"].qualname for c in m.subclasses(m.require_class(f"{BASE}.BaseTransport"), strict=True)
+                                                       if "reconnect" in c.methods]:
+        rcf = m.require_function(rcq)
+        rpar = parents(rcf.node)
+        for n in ast.walk(rcf.node):
+            if isinstance(n, ast.Call) and ast.unparse(n.func) == "self.close":
+                n_rc += 1
+                tr_ = next((a for a in ancestors(n, rpar) if isinstance(a, ast.Try) and any(n in ast.walk(b) for b in a.body)), None)
+                hs_ = [h_ for h_ in (tr_.handlers if tr_ else []) if h_.type is None or any(t in ast.unparse(h_.type) for t in ("ConnectionError", "OSError", "Exception"))]
+                reraises = [x for h_ in hs_ for x in ast.walk(h_) if isinstance(x, ast.Raise)]
+                r.check(bool(hs_) and not reraises, "R6", f"{rcq}#close-failure-tolerated",
+                        "close() of the dead connection can raise a ConnectionError out of reconnect(): it escapes from inside the client's ConnectionError "
+                        "handler and request() ends with a raw ConnectionError instead of retransmitting / MissingResponse", loc=f"{rcf.module.relpath}:{n.lineno}")
+    if n_rc < 1:
+        raise AnalysisError("BaseTransport.reconnect: close() call not found")
+
+    # ---------------------------------------------------------------- R8
+    parse_pdu_request_consistency(m, r, "R8")
 
     r.assumptions += ["transport.read/request_unsafe honour their timeout argument (asyncio.wait_for)"]
     r.not_decided += ["the outcome for each concrete event script", "wall-clock totals"]
